@@ -24,31 +24,33 @@ def level (S : Sys) (vars : List Nat) (fixed : Nat → Option Rat) : Option Rat 
   let l := S.active.foldl (fun l c => if 0 < use S fixed c then minOpt l (rem S fixed c / use S fixed c) else l) none
   vars.foldl (fun l v => if (fixed v).isNone ∧ 0 < (S.var v).bound then minOpt l ((S.var v).bound * (S.var v).penalty) else l) l
 
-def step (S : Sys) (vars : List Nat) (fixed : Nat → Option Rat) (t : Rat) : Nat → Option Rat :=
-  fun v => match fixed v with
-    | some x => some x
+/-- variables frozen at level `t` (computed eagerly: the result is a table, not a closure) -/
+def frozen (S : Sys) (vars : List Nat) (fixed : Nat → Option Rat) (t : Rat) : List (Nat × Rat) :=
+  vars.filterMap (fun v =>
+    match fixed v with
+    | some _ => none
     | none =>
-      if v ∈ vars then
-        if 0 < (S.var v).bound ∧ (S.var v).bound * (S.var v).penalty = t then some (S.var v).bound
-        else if S.active.any (fun c => (S.cnst c).elems.any (fun e => e.1 = v ∧ 0 < e.2) ∧ 0 < use S fixed c ∧
-                                       rem S fixed c = t * use S fixed c) then some (t / (S.var v).penalty)
-        else none
-      else none
+      if 0 < (S.var v).bound ∧ (S.var v).bound * (S.var v).penalty = t then some (v, (S.var v).bound)
+      else if S.active.any (fun c => (S.cnst c).elems.any (fun e => e.1 = v ∧ 0 < e.2) ∧ 0 < use S fixed c ∧
+                                     rem S fixed c = t * use S fixed c) then some (v, t / (S.var v).penalty)
+      else none)
 
-/-- `vars` = the enabled variables with a positive weight somewhere -/
-def fill (S : Sys) (vars : List Nat) : Nat → (Nat → Option Rat) → (Nat → Option Rat)
-  | 0, fixed => fixed
-  | n + 1, fixed =>
-    match level S vars fixed with
-    | none => fixed
-    | some t => fill S vars n (step S vars fixed t)
+def look (tab : List (Nat × Rat)) (v : Nat) : Option Rat := (tab.find? (fun p => p.1 == v)).map (·.2)
+
+/-- `vars` = the enabled variables with a positive weight somewhere; `tab` = the frozen variables so far -/
+def fill (S : Sys) (vars : List Nat) : Nat → List (Nat × Rat) → List (Nat × Rat)
+  | 0, tab => tab
+  | n + 1, tab =>
+    match level S vars (look tab) with
+    | none => tab
+    | some t => fill S vars n (tab ++ frozen S vars (look tab) t)
 
 def consuming (S : Sys) : List Nat :=
   S.vorder.filter (fun v => decide (0 < (S.var v).penalty) && consumes S v)
 
 /-- the weighted max-min fair allocation (0 for variables that never get frozen: disabled or not consuming) -/
 def alloc (S : Sys) : Nat → Rat :=
-  let f := fill S (consuming S) ((consuming S).length + 1) (fun _ => none)
-  fun v => (f v).getD 0
+  let tab := fill S (consuming S) ((consuming S).length + 1) []
+  fun v => (look tab v).getD 0
 
 end SgVerif.Lmm.Spec
